@@ -62,3 +62,40 @@ def install(ctx, monitors):
 
 def events():
     return _state["events"], dict(_state["per_class"])
+
+
+# ---- constructor recorder: which values of which constructor parameter did the workload actually exercise? ---------------------
+_ctor = {"installed": False, "seen": {}, "built": {}}
+
+
+def install_ctor_recorder():
+    """wrap ExactSolver.__init__ (the one constructor every solver class goes through) and record, per class, the distinct
+    explicitly passed values of every parameter (at most 60 per parameter).  Observation only: arguments and result untouched."""
+    from exactpack.base import ExactSolver
+    if _ctor["installed"]:
+        return
+    orig = ExactSolver.__init__
+
+    def recording_init(self, *a, **params):
+        try:
+            n = type(self).__name__
+            _ctor["built"][n] = _ctor["built"].get(n, 0) + 1
+            seen = _ctor["seen"].setdefault(n, {})
+            for k, v in params.items():
+                if k == "verbose":
+                    continue
+                vs = seen.setdefault(k, set())
+                if len(vs) < 60:
+                    try:
+                        vs.add(repr(v)[:40])
+                    except Exception:
+                        vs.add("<unrepresentable>")
+        except Exception:
+            pass
+        return orig(self, *a, **params)
+    ExactSolver.__init__ = recording_init
+    _ctor["installed"] = True
+
+
+def ctor_seen():
+    return {c: {k: sorted(v) for k, v in d.items()} for c, d in _ctor["seen"].items()}, dict(_ctor["built"])
